@@ -305,6 +305,11 @@ def check_address_offsets(ctx, w):
     yv = expr.nfs(ys[0].value, env)
     ctx.ob('E-iii', f.construct, 'yielded offset', yv == expr.spec_nf('start - p_vaddr + p_offset'),
            msg='file offset is not start - p_vaddr + p_offset', got=yv, expected=expr.spec_nf('start - p_vaddr + p_offset'))
+    # "the file offset(s) given by exactly those loadable segments that wholly contain it": every PT_LOAD is examined -- no path through the loop
+    # body leaves the loop or the function (overlay images map one address range from several segments)
+    exits = [p.end[0] for p in paths.enum_paths(lp.body) if p.end[0] in ('return', 'break', 'raise')]
+    ctx.ob('E-iii', f.construct, 'every PT_LOAD segment is examined (the walk does not stop at the first hit)', not exits, got=exits,
+           msg='the walk over the loadable segments ends early: a range contained in several segments is mapped through the first one only')
     d = [a for a in f.node.args.defaults]
     ctx.ob('E-iii', f.construct, 'default size 1', len(d) == 1 and isinstance(d[0], ast.Constant) and d[0].value == 1)
 
